@@ -319,6 +319,34 @@ pub fn signature_variants(c: &mut Ctx, b: &Budget) {
                 }
             }
         }
+        // verify_returning_metadata / verify on a wrapped envelope signed by several signers, each with metadata of its own:
+        // the pair returned is (unwrap_envelope, verify_signature_from_returning_metadata) for THAT key
+        {
+            let w = e.wrap_envelope();
+            let mut s = w.clone();
+            let who: Vec<&crate::props4::Signer> = ss.iter().filter(|x| x.name != "ssh-ecdsa-p256").take(3).collect();
+            let mut order: Vec<usize> = (0..who.len()).collect(); c.rng.shuffle(&mut order);
+            for &j in &order { s = s.add_signature_opt(&who[j].sk, who[j].opts.clone(), Some(SignatureMetadata::new().with_assertion(known_values::NOTE, format!("signed by {}", who[j].name)))); }
+            for sg in &who {
+                let both = guarded(|| s.verify_returning_metadata(&sg.pk).ok());
+                let direct = guarded(|| s.verify_signature_from_returning_metadata(&sg.pk).ok());
+                match (&both, &direct) {
+                    (Ok(Some((u, m))), Ok(Some(dm))) => {
+                        c.check("variant-agrees", same(u, &e), "variant-differs:verify_returning_metadata", || format!("{}: the envelope returned is not the wrapped one", sg.name));
+                        c.check("variant-agrees", same(m, dm), "variant-differs:verify_returning_metadata", || format!("{}: metadata {} but verify_signature_from_returning_metadata gives {}", sg.name, shape(m), shape(dm)));
+                        let note = m.extract_object_for_predicate::<String>(known_values::NOTE).ok();
+                        c.check("variant-agrees", note == Some(format!("signed by {}", sg.name)), "variant-differs:verify_returning_metadata", || format!("{}: metadata of another signer returned: {:?}", sg.name, note));
+                    }
+                    _ => c.check("variant-agrees", false, "variant-differs:verify_returning_metadata", || format!("{}: own signature with metadata does not verify", sg.name)),
+                }
+                let v = guarded(|| s.verify(&sg.pk).ok());
+                c.check("variant-agrees", matches!(&v, Ok(Some(u)) if same(u, &e)), "variant-differs:verify", || format!("{}: verify does not return the wrapped envelope", sg.name));
+            }
+            let stranger = bc_components::SignatureScheme::Ed25519.keypair();
+            let r = guarded(|| (s.verify_returning_metadata(&stranger.1).is_ok(), s.verify(&stranger.1).is_ok()));
+            c.check("variant-agrees", r == Ok((false, false)), "variant-differs:verify_returning_metadata", || "a key that did not sign is accepted".into());
+            c.count("variant:verify_returning_metadata");
+        }
         // raw signature object: make_signed_assertion / is_verified_signature / verify_signature
         let sg = &ss[c.rng.below(ss.len())];
         if sg.name != "ssh-ecdsa-p256" {
@@ -400,8 +428,11 @@ pub fn recipient_variants(c: &mut Ctx, b: &Budget) {
                 }
             }
         }
-        // seal_opt / seal / unseal
+        // seal_opt / seal / unseal - also for originals that are wholly compressed, elided, encrypted or wrapped: what comes out is
+        // what went in, obscured as it was
         let sg = &ss[c.rng.below(ss.len())];
+        let e = match i % 5 { 0 => e.compress().unwrap_or(e.clone()), 1 => e.elide(), 2 => e.wrap_envelope(), 3 => e.encrypt(&SymmetricKey::new()), _ => e.clone() };
+        c.count(&format!("seal-original:{}", crate::interp::case_name(&e)));
         for (name, sealed) in [("seal_opt", guarded(|| e.seal_opt(&sg.sk, &keys[0].1, sg.opts.clone()))), ("seal", guarded(|| e.seal(&sg.sk, &keys[0].1)))] {
             if name == "seal" && sg.opts.is_some() { continue; }
             c.count(&format!("variant:{}", name));
